@@ -539,6 +539,7 @@ class PathResult:
         self.effects = []           # non-noise expression statements / opaque statements executed on the path
         self.tests = []             # (test node, truth) decided on the path
         self.fell_off = False
+        self.tries = []             # try statements entered on the path
         self.calls = []             # expression statements that are calls, substituted: dict(call, seq, node)
         self.ended = None           # 'return' | 'raise' | 'continue' | 'break' | None (fell off the end)
         self.updates = []           # keyed stores into containers: dict(kind='storeall'|'incall'|'store1'|'inc1', target, over, key, value, node), expressions substituted
@@ -751,8 +752,59 @@ class PathEval:
                 return True
         return False
 
+    def _invalidate_mutated(self, s):
+        """a container that is mutated in place no longer has the value of its last assignment: its name stays symbolic from here on"""
+        todo = [s]
+        while todo:
+            x = todo.pop()
+            if isinstance(x, (ast.FunctionDef, ast.AsyncFunctionDef, ast.Lambda, ast.ClassDef)):
+                continue
+            if isinstance(x, ast.Call) and isinstance(x.func, ast.Attribute) and isinstance(x.func.value, ast.Name) and x.func.attr in MUTATORS and self._is_value(self.env.get(x.func.value.id)):
+                self.env[x.func.value.id] = None
+            if isinstance(x, (ast.Assign, ast.AugAssign, ast.AnnAssign, ast.Delete)):
+                tgs = x.targets if isinstance(x, (ast.Assign, ast.Delete)) else [x.target]
+                for t in tgs:
+                    base = t
+                    while isinstance(base, (ast.Subscript, ast.Attribute)):
+                        base = base.value
+                    if base is not t and isinstance(base, ast.Name) and self._is_value(self.env.get(base.id)):
+                        self.env[base.id] = None
+            todo.extend(ast.iter_child_nodes(x))
+
+    def _bind_unpack(self, tgt, val) -> bool:
+        """(a, (b, c)) = value : names bound to the positions of the value (recursively); False when a target is not a name / tuple"""
+        def ok(t):
+            return isinstance(t, ast.Name) or (isinstance(t, (ast.Tuple, ast.List)) and all(ok(x) for x in t.elts))
+        if not ok(tgt):
+            return False
+
+        def bind(t, v):
+            if isinstance(t, ast.Name):
+                v._seq = getattr(self, 'seq', 0)
+                self.env[t.id] = v
+                return
+            for i, x in enumerate(t.elts):
+                if isinstance(v, (ast.Tuple, ast.List)) and len(v.elts) == len(t.elts):
+                    bind(x, v.elts[i])
+                else:
+                    bind(x, ast.fix_missing_locations(ast.Subscript(value=copy.deepcopy(v), slice=ast.Constant(i), ctx=ast.Load())))
+        bind(tgt, val)
+        return True
+
+    @staticmethod
+    def _is_value(v) -> bool:
+        """the binding holds a freshly built object (not a reference to some other named object)"""
+        return v is not None and not isinstance(v, (ast.Name, ast.Attribute))
+
     def _stmt(self, s):
         """'end' when the path ended at s"""
+        self._summarised = False
+        r = self._stmt0(s)
+        if not self._summarised and not isinstance(s, (ast.If, ast.With, ast.Try, ast.FunctionDef, ast.AsyncFunctionDef)):
+            self._invalidate_mutated(s)
+        return r
+
+    def _stmt0(self, s):
         for s in [s]:
             if self.stop_at is not None and any(x is self.stop_at for x in ast.walk(s)) and not isinstance(s, (ast.With, ast.If)):
                 self.res.env_at_stop = dict(self.env)
@@ -771,7 +823,14 @@ class PathEval:
                 if self.block(s.body):
                     return 'end'
                 return None
+            if isinstance(s, ast.Try):
+                # the path on which the protected block raises nothing (handlers are other rules' concern)
+                self.res.tries.append(s)
+                if self.block(s.body) or self.block(s.orelse) or self.block(s.finalbody):
+                    return 'end'
+                return None
             if isinstance(s, ast.For) and not s.orelse and self._append_loop(s):
+                self._summarised = True
                 return None
             if isinstance(s, ast.Return):
                 self.res.returned = self.subst(s.value) if s.value is not None else ast.Constant(None)
@@ -804,6 +863,13 @@ class PathEval:
                 if s.value is None:
                     return None
                 val = self.subst(s.value)
+                if isinstance(s.value, ast.BoolOp) and isinstance(s.value.op, ast.Or) and len(s.value.values) == 2:
+                    # x = a or b   is   x = a if a else b
+                    v = self.truth(s.value.values[0])
+                    if v is None:
+                        self.res.unknown, self.res.unknown_test = s, s.value.values[0]
+                        return 'end'
+                    val = self.subst(s.value.values[0] if v else s.value.values[1])
                 if isinstance(s.value, ast.IfExp):
                     v = self.truth(s.value.test)
                     if v is None:
@@ -817,13 +883,7 @@ class PathEval:
                 if isinstance(tgt, ast.Subscript):
                     self.res.updates.append(dict(kind='store1', target=self.subst(tgt.value), over=None, key=self.subst(tgt.slice), value=val, node=s))
                     return None
-                if isinstance(tgt, ast.Tuple) and all(isinstance(x, ast.Name) for x in tgt.elts):
-                    if isinstance(val, ast.Tuple) and len(val.elts) == len(tgt.elts):
-                        for x, v in zip(tgt.elts, val.elts):
-                            self.env[x.id] = v
-                    else:
-                        for i, x in enumerate(tgt.elts):
-                            self.env[x.id] = ast.fix_missing_locations(ast.Subscript(value=copy.deepcopy(val), slice=ast.Constant(i), ctx=ast.Load()))
+                if isinstance(tgt, (ast.Tuple, ast.List)) and self._bind_unpack(tgt, val):
                     return None
                 self.res.effects.append(s)
                 return None
@@ -884,3 +944,41 @@ def run_paths(fn: Func, subject_pred, value: str, max_forks: int = 3, body=None,
             continue
         out.append((assume, res))
     return out
+
+
+# ---------------------------------------------------------------------------
+# mismatch of a canonical term with its accepted forms: inside the vocabulary (a real difference) or outside it (not decidable)
+# ---------------------------------------------------------------------------
+
+def term_vocab(term) -> set:
+    """names of the functions / methods / attributes a term applies"""
+    out = set()
+    for x in _walk_term(term):
+        if isinstance(x, tuple) and x:
+            if x[0] == 'call' and isinstance(x[1], tuple):
+                h = x[1]
+                if h[0] in ('lib', 'name'):
+                    out.add(h[1].split('.')[-1])
+                elif h[0] == 'attr':
+                    out.add(h[2])
+            elif x[0] == 'attr':
+                out.add(x[2])
+            elif x[0] in ('listcomp', 'genexp', 'setcomp', 'dictcomp', 'ifexp', 'lambda', 'star'):
+                out.add('<' + x[0] + '>')
+    return out
+
+
+def _walk_term(t):
+    yield t
+    if isinstance(t, (tuple, frozenset)):
+        for x in t:
+            yield from _walk_term(x)
+
+
+def within_vocabulary(found, accepted) -> bool:
+    """True when `found` applies only operations that occur in some accepted form: a mismatch is then a real difference of the
+    computed value; False when it uses operations the accepted forms never use (an unknown spelling: not decidable here)."""
+    known = set()
+    for a in accepted:
+        known |= term_vocab(a)
+    return term_vocab(found) <= known
